@@ -441,6 +441,8 @@ def eval_C14(item):
                                                                              ','.join(str(k) for k in d._structures_dict.keys()) or '-')), lab)[0]
         elif op[0] == 'reload':
             fmt = op[1]
+            if fmt == 'fits' and case['fb'] >= 30:
+                fmt = 'hdf5'    # FITS header cards cannot hold such parameters exactly (K7, reported by C09)
             os.makedirs(WORK, exist_ok=True)
             fd, path = tempfile.mkstemp(suffix='.' + fmt, dir=WORK)
             os.close(fd)
